@@ -21,6 +21,25 @@ ASSUMPTIONS = ["simulated group coordinator (vlib/simkafka/group.py: Kafka's cla
 GROUP_APIS = ("join", "sync")
 
 
+def metadata_change_times(c, tag):
+    """Instants at which the member learnt of a new topic or partition count (a metadata reply that differs from
+    what it knew): for pattern subscriptions and group leaders this is a subscription / assignment-input change."""
+    md_changes = []
+    prev_sig = None
+    for x in c.arrivals:
+        if x.api == "metadata" and x.client_id == tag and x.delivered and x.reply and x.t_end is not None:
+            sig = sorted((t["topic"], len(t["partitions"])) for t in x.reply["topics"] if not t.get("error"))
+            known = dict(prev_sig or [])
+            if prev_sig is not None and any(known.get(tn) != n for tn, n in sig):
+                md_changes.append(x.t_end)
+            if prev_sig is None:
+                prev_sig = sig
+            else:
+                known.update(dict(sig))
+                prev_sig = sorted(known.items())
+    return md_changes
+
+
 def group_checks(case, obs, out):
     """Clauses shared with C05/C04 runs: advertises_all, join_then_sync."""
     c = obs.cluster
@@ -39,21 +58,7 @@ def group_checks(case, obs, out):
         # a successful JoinGroup reply is followed by SyncGroup for that generation / member id
         seq = [a for a in arrs if a.api in GROUP_APIS]
         sub_changes = [e for e in obs.events if e["kind"] == "subscribe" and e["member"] == tag]
-        # the member learning of a new topic or partition count (metadata reply that differs from the previous one)
-        # is a subscription / assignment-input change as well: pattern subscriptions and leaders rejoin on it
-        md_changes = []
-        prev_sig = None
-        for x in c.arrivals:
-            if x.api == "metadata" and x.client_id == tag and x.delivered and x.reply and x.t_end is not None:
-                sig = sorted((t["topic"], len(t["partitions"])) for t in x.reply["topics"] if not t.get("error"))
-                known = dict(prev_sig or [])
-                if prev_sig is not None and any(known.get(tn) != n for tn, n in sig):
-                    md_changes.append(x.t_end)
-                if prev_sig is None:
-                    prev_sig = sig
-                else:
-                    known.update(dict(sig))
-                    prev_sig = sorted(known.items())
+        md_changes = metadata_change_times(c, tag)
         for i, a in enumerate(seq):
             if a.api != "join" or not a.reply or a.reply.get("error") != 0 or a.t_end is None or not a.delivered:
                 continue
